@@ -99,6 +99,8 @@ def run(ctx):
     ctx.cov["rule"] = ("cases = every sub-AST of every expression built from the C01 streams, plus ASTs derived by annotate/replace/Z3 simplify; "
                        "non-trivial = non-leaf node; distinct = distinct AST hash")
     ctx.prove("ClaripyProofs.Props.C05", THEOREMS)
+    # a Boolean-valued expression reports no width (companion of C05_width)
+    ctx.prove("ClaripyProofs.Lemmas.AST.BoolWidth", ["Claripy.AST.eval_bool_width", "Claripy.AST.applyOp_bool_cases"])
     rng = ctx.rng
     n1, n2 = ctx.pick((2500, 1500), (40000, 30000))
     lines, expect = [], []
